@@ -35,6 +35,7 @@ def run(chk):
     read_callers(chk, prog, cg)
     read_exact(chk, prog)
     absence(chk, prog, cg)
+    events_not_dropped(chk, prog)
     return chk.finish(EXPL)
 
 
@@ -267,3 +268,95 @@ def absence(chk, prog, cg):
     chk.check(not others, "ABSENCE/nondeterministic-api", "time/thread/random/hash APIs used outside the host stopwatch: %s" % others)
     chk.count("functions-scanned", len(prog.local_fns()))
     chk.floor("functions-scanned", 600)
+
+
+def events_not_dropped(chk, prog):
+    """T-PAIR: one step of the emulate_frames loop, with Z80::emulate / take_events / the fast-load handler as
+    effects and the taken event set symbolic.  take_events *clears* the controller's pending events, so whatever it
+    returned must be acted upon before the loop body ends or the function returns — otherwise stopping at a
+    breakpoint and resuming is not equivalent to running through (the dropped event is never raised again):
+      bit TAPE_FAST_LOAD_TRIGGER_DETECTED set  ->  process_fast_load_event is called in that step
+      bit PC_BREAKPOINT set                    ->  the call returns in that step (after the fast load, if any)
+      a step that ends without having examined a bit of the taken set is a violation."""
+    from . import loaders as ld
+    from .c04 import cc_decide
+    from zx.walk import Walker, Ref, Agg, EffectResult
+    ln = ld.LoaderNames(prog)
+    EMUL = prog.fn_path("rustzx_core", "Emulator::<H>::emulate_frames")
+    TAKE = prog.fn_path("rustzx_core", "ZXController::<H>::take_events")
+    PFL = prog.fn_path("rustzx_core", "Emulator::<H>::process_fast_load_event")
+    EV = prog.adt_path("rustzx_core", "EmulationEvents")
+    flags = {"TAPE_FAST_LOAD_TRIGGER_DETECTED": None, "PC_BREAKPOINT": None}
+    for name in flags:
+        flags[name] = event_bit(prog, EV, name)
+    key = "T-PAIR/Emulator::emulate_frames/events"
+    if any(v is None for v in flags.values()):
+        chk.undecided_(key + "/flags", "EmulationEvents flag constants not found: %s" % flags)
+        return
+    w = Walker(prog, loop_bound=1)
+    CPU = [p for p in prog.fns if p.endswith("Z80::emulate")]
+    opaque = {TAKE, PFL, prog.fn_path("rustzx_core", "ZXController::<H>::take_last_emulation_error"),
+              prog.fn_path("rustzx_core", "ZXController::<H>::frames_count"),
+              prog.fn_path("rustzx_core", "ZXController::<H>::reset_frame_counter")} | set(CPU)
+    for p in prog.fns:
+        if "EmulationStopwatch" in p:
+            opaque.add(p)
+    w.opaque_paths |= opaque
+
+    def hook(w_, st, path, a, d, wh):
+        if path == TAKE:
+            k = sum(1 for e in st.trace if e.path == TAKE)
+            return EffectResult(Agg(("adt", EV), 0, [tm.sym("EVENTS%d" % k, 8)]), havoc=False)
+        if path.endswith("::take_last_emulation_error"):
+            return EffectResult(Agg(("adt", "core::option::Option"), 0, []), havoc=False)
+        return None
+    w.effect_hook = hook
+    st = ld.emulator_state(w, prog, ln, "Sinclair48K")
+    rs = w.run(prog.fn(EMUL), [Ref(ld.EMU, (), True), tm.sym("limit", 64)], genv=cc.GENV, state=st)
+    bad = [r for r in rs if r.outcome not in ("return", "cut")]
+    if bad or not rs:
+        chk.undecided_(key + "/paths", "exploration of emulate_frames failed: %s" % [(r.outcome, r.detail) for r in bad][:2])
+        return
+    steps = 0
+    fl, bp = flags["TAPE_FAST_LOAD_TRIGGER_DETECTED"], flags["PC_BREAKPOINT"]
+    for r in rs:
+        idx = [i for i, e in enumerate(r.trace) if e.path == TAKE]
+        for n, i in enumerate(idx):
+            nxt = [j for j, e in enumerate(r.trace) if j > i and e.path in CPU]
+            end = nxt[0] if nxt else len(r.trace)
+            complete = bool(nxt) or r.outcome == "return"
+            if not complete:
+                continue
+            steps += 1
+            ev = tm.sym("EVENTS%d" % n, 8)
+            seg = r.trace[i + 1:end]
+            served = any(e.path == PFL for e in seg)
+            returned = (not nxt) and r.outcome == "return"
+            has_fl = cc_decide(r, tm.cmp("eq", tm.binop("and", ev, K(fl, 8)), K(fl, 8)))
+            has_bp = cc_decide(r, tm.cmp("eq", tm.binop("and", ev, K(bp, 8)), K(bp, 8)))
+            err_exit = returned and isinstance(r.ret, Agg) and r.ret.variant == 1 and served
+            if has_fl is None:
+                chk.fail(key + "/fast-load-dropped", "a step of emulate_frames ends (%s) without examining TAPE_FAST_LOAD_TRIGGER_DETECTED in the events it took from the controller: the trap request is lost (e.g. together with a breakpoint at the same address)" % (
+                    "returns to the host" if returned else "next instruction"))
+            else:
+                chk.check(served == has_fl, key + "/fast-load-served", "fast-load trigger taken=%s but handler called=%s in that step" % (has_fl, served))
+            if has_bp is None:
+                if not err_exit:
+                    chk.fail(key + "/breakpoint-dropped", "a step of emulate_frames ends without examining PC_BREAKPOINT in the events it took")
+            elif has_bp:
+                chk.check(returned, key + "/breakpoint-stops", "PC_BREAKPOINT taken but the call does not return in that step")
+            else:
+                chk.ok()
+    chk.count("event-steps", steps)
+    chk.floor("event-steps", 8)
+
+
+def event_bit(prog, EV, name):
+    """value of the bitflags constant EmulationEvents::<name>"""
+    c = prog.consts.get(EV + "::" + name)
+    if c is None:
+        return None
+    try:
+        return c["v"]["fields"][0]["int"]
+    except (KeyError, IndexError, TypeError):
+        return None
